@@ -1,5 +1,6 @@
 import TexcraftModel.Util.Proto
 import TexcraftModel.Model.C19
+import TexcraftModel.Model.C19Names
 
 /-! Driver for C19. All requests and replies are integer lists.
 
@@ -176,6 +177,13 @@ def handle (line : String) : String :=
     match ints? ws with
     | some c => (handleRd c).getD "ERR decode"
     | none => "ERR ints"
+  | "rs" :: ws =>
+    -- `rs <mode> <char codes…>` → the file name that the written name denotes
+    -- (mode 0: the code, `resolveCode`; mode 1: TeX, `resolveTeX`)
+    match nats? ws with
+    | some (0 :: w) => showNats (resolveCode w)
+    | some (1 :: w) => showNats (resolveTeX w)
+    | _ => "ERR rs"
   | _ => "ERR unknown request"
 
 end DrvC19
